@@ -227,6 +227,13 @@ func (h CarHeader) Matches(other CarHeader) bool {
 			return false
 		}
 	}
+	// And the other way round: with a duplicated root on one side, equal length and one-way
+	// containment do not imply the same set of roots.
+	for _, r := range other.Roots {
+		if !h.containsRoot(r) {
+			return false
+		}
+	}
 	return true
 }
 
